@@ -28,6 +28,12 @@ CHECKS = {
         ref="DESIGN.md section 6 C01",
         note="Sampled, not exhaustive, over an abstract GraphQL (objects, Node/value types, lists, nulls, aliases, arguments, variables with defaults, @skip/@include, inline and named fragments, interfaces/unions in their own stratum; scalars over a small alphabet). Assumes consistent services and mergeable schema sets; schemas are handed to the gateway by an SDL-loading introspector.",
         technique="TLA+ reference semantics (Ref/Norm) evaluated by TLC on traces recorded from the real gateway (trace validation), seeded generation in strata"),
+    "C02": dict(
+        category="translation_validation",
+        text="Each client operation is a program that the planner translates into a tree of sub-programs. FederationAbs!PlanOK states the per-translation claim (every step text parses and validates against the RECEIVING service's own schema as judged by that service's gqlparser, declares the variables it uses, root steps keep operation kind and name, child steps are node queries on Node types; together the steps cover every client-selected field at a service that declares it; only id/__typename helpers are added and each is registered for removal; nothing the client selected is registered for removal) and ReqOK the per-request claim (every request actually received is an instance of a plan step, valid for its service, carrying the client's value or declared default of every variable it uses). TLC evaluates both on the plans and requests recorded from the real planner/executor for 15k (quick) / 500k (thorough) generated operation runs; negative controls (dropped step, wrong service, unregistered helper, changed variable value, invalid request) must be refused.",
+        ref="DESIGN.md section 6 C02",
+        note="Validity for a schema is decided by gqlparser (trusted); ownership/coverage/helper/variable accounting by the specification on abstract projections produced by the harness (fakesvc.AbsSel/Facts). Scalar-valued arguments only.",
+        technique="TLA+ contract (PlanOK/ReqOK) evaluated by TLC on recorded translations (trace validation) + negative controls"),
 }
 
 PENDING = "not claimed yet: specification and binding for this property are still being built (DESIGN.md section 10 build order)"
